@@ -3,12 +3,14 @@ package checks
 import (
 	"errors"
 	"fmt"
+	"io"
 	"math/rand/v2"
 	"os"
 	"path/filepath"
 	"strings"
 	"sync"
 	"sync/atomic"
+	"time"
 
 	"github.com/ipld/go-storethehash/store/filecache"
 
@@ -207,10 +209,12 @@ const c14Shards = 3 * 11
 
 func c14Counts(tier string) (exh, random, conc int) {
 	if tier == "thorough" {
-		return c14Shards, 200, 300
+		return c14Shards, 200, 300 + c14StoreCases(tier)
 	}
-	return c14Shards, 40, 40
+	return c14Shards, 40, 40 + c14StoreCases(tier)
 }
+
+func c14StoreCases(tier string) int { return tierN(tier, 40, 600) }
 
 func init() {
 	run.Register(&run.Check{
@@ -219,7 +223,7 @@ func init() {
 		Race:  true,
 		Cases: func(tier string) int { a, b, c := c14Counts(tier); return a + b + c },
 		Run:   runC14,
-		Rule: "three families on filecache.FileCache with real files: (1) bounded-exhaustive: ALL sequences up to length L (quick 5, thorough 6) over {Open(a|b|c), Close(h) for every currently lent handle, Remove(a|b|c), Clear, SetCacheSize(0|1|2|3)} from initial capacities {0,1,2}; after every step a shadow table of lent handles is used to check: every lent handle is open and refers to its file, legitimate Close returns nil, released-but-open handles <= Len() <= released+lent, Len() <= Cap() when Cap()>0, descriptors under the scratch directory == released-cached + lent, no negative reference count, no panic; (2) random sequences of length 30-200; (3) concurrent stress in the race build: 8 goroutines Open/ReadAt/Close while others Remove/Clear/SetCacheSize, each ReadAt on a handle the goroutine still holds must not fail with ErrClosed, full accounting at quiescence. " +
+		Rule: "three families on filecache.FileCache with real files: (1) bounded-exhaustive: ALL sequences up to length L (quick 5, thorough 6) over {Open(a|b|c), Close(h) for every currently lent handle, Remove(a|b|c), Clear, SetCacheSize(0|1|2|3)} from initial capacities {0,1,2}; after every step a shadow table of lent handles is used to check: every lent handle is open and refers to its file, legitimate Close returns nil, released-but-open handles <= Len() <= released+lent, Len() <= Cap() when Cap()>0, descriptors under the scratch directory == released-cached + lent, no negative reference count, no panic; (2) random sequences of length 30-200; (3) concurrent stress in the race build: 8 goroutines Open/ReadAt/Close while others Remove/Clear/SetCacheSize, each ReadAt on a handle the goroutine still holds must not fail with ErrClosed, full accounting at quiescence; (4) the cache's users inside the store: a flushed, reopened store with FileCacheSize 1-2 and many small index/primary files is read by 6 Get/Has/GetSize loops while 2 goroutines run whole-store iterations and one toggles SetFileCacheSize - a lookup failing with a closed-file error (or any error, wrong value, panic) means some user gave a handle back while it was still lent to another. " +
 			"non-trivial iff the case observed an eviction of a lent handle (removed-map path) and a resize through 0; distinct = distinct accounting states (cap, Len, released, lent) seen",
 		Assumptions: []string{
 			"eviction order and over-eviction are deliberately not modelled, only the accounting identities of the statement",
@@ -382,7 +386,11 @@ func runC14(c run.Ctx) *core.CaseResult {
 			res.Sample = map[string]any{"case": c.ID(), "kind": "random", "sequences": 125}
 		}
 	default:
-		c14Concurrent(c, res, dir, ob)
+		if nexh+nrand+(map[bool]int{true: 300, false: 40}[c.Tier == "thorough"]) <= c.Index {
+			c14StoreLevel(c, res, ob)
+		} else {
+			c14Concurrent(c, res, dir, ob)
+		}
 	}
 	res.Add("steps_checked", ob.steps)
 	var st []string
@@ -499,5 +507,139 @@ func c14Concurrent(c run.Ctx, res *core.CaseResult, dir string, ob *c14Obs) {
 	ob.states[fmt.Sprintf("conc/%d/%d", opens.Load(), evicts.Load())] = true
 	if c.Index%10 == 0 {
 		res.Sample = map[string]any{"case": c.ID(), "kind": "concurrent", "opens": opens.Load(), "reads_on_held_handles": reads.Load(), "evictor_calls": evicts.Load()}
+	}
+}
+
+// c14StoreLevel: the cache as used by the store (index lookups, iterator, primary reads).
+func c14StoreLevel(c run.Ctx, res *core.CaseResult, ob *c14Obs) {
+	r := gen.Rng(c.Seed, propStream("C14store"), uint64(c.Index))
+	cfg := gen.Config{Primary: gen.MH, Bits: 8, IndexFileSize: []uint32{40, 100}[r.IntN(2)], PrimaryFileSize: []uint32{60, 150}[r.IntN(2)], FileCache: 1 + r.IntN(2)}
+	env, err := core.NewEnv(cfg)
+	if err != nil {
+		res.Verdict = "inconclusive"
+		return
+	}
+	defer env.Cleanup()
+	u := gen.MakeUniverse(r, cfg.Primary, 30+r.IntN(30))
+	s, err := env.Open()
+	if err != nil {
+		res.Violate("open-error", "c14-store-open", 0, nil, "open: %v", err)
+		return
+	}
+	want := map[int][]byte{}
+	for k := range u.Keys {
+		v := gen.Value(uint64(k+1), 8+r.IntN(30))
+		if err := s.Put(append([]byte{}, u.Keys[k].Raw...), append([]byte{}, v...)); err != nil {
+			res.Violate("put-error", "c14-store-put", 0, nil, "put: %v", err)
+			return
+		}
+		want[k] = v
+		if k%3 == 2 {
+			s.Flush()
+		}
+	}
+	s.Flush()
+	s.Close()
+	s, err = env.Open() // empty pools: every read goes through the file cache
+	if err != nil {
+		res.Violate("open-error", "c14-store-reopen", 0, nil, "reopen: %v", err)
+		return
+	}
+	var wg sync.WaitGroup
+	var bad atomic.Value
+	var gets, iters atomic.Int64
+	for g := 0; g < 6; g++ {
+		wg.Add(1)
+		go func(g int) {
+			defer wg.Done()
+			rr := rand.New(rand.NewPCG(uint64(c.Index), uint64(g)))
+			for i := 0; i < 2500 && bad.Load() == nil; i++ {
+				k := rr.IntN(len(u.Keys))
+				key := append([]byte{}, u.Keys[k].Raw...)
+				switch i % 3 {
+				case 0:
+					v, found, err := s.Get(key)
+					if err != nil || !found || string(v) != string(want[k]) {
+						bad.Store(fmt.Sprintf("Get(k%d) = found %v, err %v, %d bytes (want %d bytes)", k, found, err, len(v), len(want[k])))
+					}
+				case 1:
+					has, err := s.Has(key)
+					if err != nil || !has {
+						bad.Store(fmt.Sprintf("Has(k%d) = %v, %v", k, has, err))
+					}
+				default:
+					sz, found, err := s.GetSize(key)
+					if err != nil || !found || int(sz) != len(want[k]) {
+						bad.Store(fmt.Sprintf("GetSize(k%d) = %d, %v, %v", k, sz, found, err))
+					}
+				}
+				gets.Add(1)
+			}
+		}(g)
+	}
+	for g := 0; g < 2; g++ {
+		wg.Add(1)
+		go func() {
+			defer wg.Done()
+			for pass := 0; pass < 25 && bad.Load() == nil; pass++ {
+				it := s.NewIterator()
+				n := 0
+				for {
+					_, _, err := it.Next()
+					if err == io.EOF {
+						break
+					}
+					if err != nil {
+						bad.Store(fmt.Sprintf("iterator failed: %v", err))
+						return
+					}
+					n++
+				}
+				if n != len(u.Keys) {
+					bad.Store(fmt.Sprintf("iteration over an unchanging store yielded %d of %d keys", n, len(u.Keys)))
+					return
+				}
+				iters.Add(1)
+			}
+		}()
+	}
+	stop := make(chan struct{})
+	var rz sync.WaitGroup
+	rz.Add(1)
+	go func() {
+		defer rz.Done()
+		sizes := []int{1, 2, 0, 3, 1}
+		for i := 0; ; i++ {
+			select {
+			case <-stop:
+				return
+			default:
+			}
+			s.SetFileCacheSize(sizes[i%len(sizes)])
+			time.Sleep(200 * time.Microsecond)
+		}
+	}()
+	p := core.Protect(func() { wg.Wait() })
+	close(stop)
+	rz.Wait()
+	if p != nil {
+		res.Violate("panic", "c14-store-panic", 0, nil, "panic: %v", p)
+	}
+	if b := bad.Load(); b != nil {
+		res.Violate("store-level-handle", "c14-store-handle", 0, nil, "read-only concurrent use of the store through a tiny file cache failed: %s", b)
+	}
+	if err := s.Close(); err != nil {
+		res.Violate("close-error", "c14-store-close", 0, nil, "Close: %v", err)
+	}
+	if fds := fdsUnder(env.Root); len(fds) > 0 {
+		res.Violate("descriptor-open-after-close", "c14-store-fd-after-close", 0, fds, "%d descriptors still open after Close", len(fds))
+	}
+	res.Add("store_level_runs", 1)
+	res.Add("store_level_lookups", gets.Load())
+	res.Add("store_level_iteration_passes", iters.Load())
+	ob.evictedLent, ob.throughZero = true, true
+	ob.states[fmt.Sprintf("store/%d/%d", gets.Load(), iters.Load())] = true
+	if c.Index%10 == 0 {
+		res.Sample = map[string]any{"case": c.ID(), "kind": "store-level readers + iterators through a tiny cache", "config": cfg, "keys": len(u.Keys), "lookups": gets.Load(), "iteration_passes": iters.Load()}
 	}
 }
